@@ -11,6 +11,7 @@ import (
 	"sort"
 	"strings"
 	"sync"
+	"time"
 
 	"github.com/EdgeCast/vflow/ipfix"
 	netflow9 "github.com/EdgeCast/vflow/netflow/v9"
@@ -18,6 +19,7 @@ import (
 	"github.com/EdgeCast/vflow/zzverif/mck"
 	"github.com/EdgeCast/vflow/zzverif/ref"
 	"github.com/EdgeCast/vflow/zzverif/sched"
+	"github.com/EdgeCast/vflow/zzverif/venv"
 )
 
 var tmpDirOnce string
@@ -51,6 +53,10 @@ func versions() [][]ref.Field {
 		{f(ref.TIPv4), f(ref.TU32)},
 		{f(ref.TU16), f(ref.TU16), f(ref.TU16), f(ref.TU16)},
 		{f(ref.TU16), f(ref.TU16), f(ref.TU32)}, // shares a prefix with v3
+		// v5 (IPFIX scenarios only): a variable-length field first - the probe body reads as length 1, one
+		// octet, then u16, u32. Whatever a decoder learns about the actual length belongs to the record,
+		// not to the template shared through the cache.
+		{{ID: by[ref.TString], Len: 65535, Type: ref.TString}, f(ref.TU16), f(ref.TU32)},
 	}
 }
 
@@ -98,8 +104,13 @@ func (e *env) classify(recs [][]ref.ExpField, unknown bool) int {
 		var want []ref.ExpField
 		off := 0
 		for _, f := range fs {
-			want = append(want, ref.ExpField{ID: f.ID, Value: ref.Interpret(f.Type, probeBody[off:off+int(f.Len)])})
-			off += int(f.Len)
+			l := int(f.Len)
+			if f.Len == 65535 { // variable length, one-octet prefix
+				l = int(probeBody[off])
+				off++
+			}
+			want = append(want, ref.ExpField{ID: f.ID, Value: ref.Interpret(f.Type, probeBody[off:off+l])})
+			off += l
 		}
 		if cls, _ := flowh.CompareRecords(recs, [][]ref.ExpField{want}); cls == "" {
 			return v
@@ -304,6 +315,8 @@ func scenarios() []scenario {
 	add("data|data|announce", false, datProg(0, 2), datProg(0, 2), annProg(0, 1, 2))
 	add("aged data|aged data|aged dump", false, aged(datProg(0, 1)), aged(datProg(0, 1)), aged(dmpProg("a.json")))
 	add("aged data|aged peer-get|announce", true, aged(datProg(0, 1)), aged(rpcProg(0, 1)), annProg(0, 1))
+	add("variable-length template: announce|data|peer-get", true, annProg(0, 5), datProg(0, 2), rpcProg(0, 2))
+	add("variable-length template: data|data|dump", true, annProg(0, 5, 1), datProg(0, 2), dmpProg("a.json"))
 	add("two-templates-in-one-set|data|data", false, annMultiProg(0, 1, 3, 4), datProg(0, 2), datProg(3, 2))
 	add("two-templates-in-one-set|dump|peer-get", true, annMultiProg(0, 2, 3, 3), dmpProg("a.json"), rpcProg(0, 2))
 	add("two-templates-in-one-set|dump|data", false, annMultiProg(0, 2, 3, 3), dmpProg("a.json"), datProg(0, 2))
@@ -621,7 +634,7 @@ func schedSpace(tier string) mck.Space {
 				newRaceReport()
 				if getObs()+"|"+r.FailSig != firstObs[i] {
 					fmt.Fprintf(os.Stderr, "determinism gate failed: schedule %v observed %q then %q\n", ch, firstObs[i], getObs()+"|"+r.FailSig)
-					os.Exit(2)
+					os.Exit(3)
 				}
 			}}, body)
 		}
@@ -671,6 +684,107 @@ func schedSpace(tier string) mck.Space {
 	}}
 }
 
+// agingSpace (sequential, no scheduler): what the cache holds must not depend on how much TIME has passed
+// since it was announced - seconds, the usual timeout values, days, more than a year - in memory, across a
+// re-announcement, across dump + load (a restart after a long downtime) and for a peer lookup. The cache code
+// reads the clock through the time seam; AdvanceReal moves it.
+func agingSpace(tier string) mck.Space {
+	flowh.InstallExtra()
+	ages := []int64{0, 1, 59, 60, 61, 299, 300, 301, 599, 600, 601, 1799, 1800, 1801, 3599, 3600, 3601, 7200, 86399, 86400, 86401, 7 * 86400, 30 * 86400, 400 * 86400}
+	orders := []string{"announce, wait, data", "announce v0, wait, announce, wait, data", "announce, dump, wait, load, data", "announce, wait, peer lookup", "announce, wait, dump, load, data"}
+	vers := versions()
+	dims := mck.Radix{2, uint64(len(ages)), uint64(len(orders)), uint64(len(vers))}
+	return mck.FuncSpace{N: dims.Size(), F: func(idx uint64, c *mck.Ctx) {
+		d := dims.Digits(idx)
+		e := &env{v9: d[0] == 1, vers: vers, keys: []key{{net.ParseIP("192.0.2.10"), 256}}}
+		age, order, v := time.Duration(ages[d[1]])*time.Second, orders[d[2]], d[3]
+		if e.v9 && (v == 5 || d[2] == 3) {
+			c.Skip() // variable length and the peer lookup are IPFIX only
+			return
+		}
+		proto := "ipfix"
+		if e.v9 {
+			proto = "v9"
+		}
+		desc := func() interface{} {
+			return map[string]interface{}{"protocol": proto, "order": order, "wait_seconds": ages[d[1]], "template_version": v}
+		}
+		c.SetCase(desc)
+		cc := flowh.NewCaches()
+		file := filepath.Join(tmpDirGet(), fmt.Sprintf("aging-%d.json", idx))
+		defer os.Remove(file)
+		dump := func() {
+			if e.v9 {
+				cc.N.Dump(file)
+			} else {
+				cc.I.Dump(file)
+			}
+		}
+		load := func() {
+			if e.v9 {
+				cc = &flowh.Caches{N: netflow9.GetCache(file)}
+			} else {
+				cc = &flowh.Caches{I: ipfix.GetCache(file)}
+			}
+		}
+		ann := func(ver int) { flowh.Decode(e.v9, e.keys[0].addr, e.tmsg(0, ver), cc) }
+		got := -3
+		data := func() {
+			r := flowh.Decode(e.v9, e.keys[0].addr, e.dmsg(0), cc)
+			got = e.classify(r.Records, r.Err != nil && strings.Contains(r.Err.Error(), "unknown"))
+		}
+		switch d[2] {
+		case 0:
+			ann(v)
+			venv.AdvanceReal(age)
+			data()
+		case 1:
+			ann(0)
+			venv.AdvanceReal(age)
+			ann(v)
+			venv.AdvanceReal(age)
+			data()
+		case 2:
+			ann(v)
+			dump()
+			venv.AdvanceReal(age)
+			load()
+			data()
+		case 3:
+			ann(v)
+			venv.AdvanceReal(age)
+			var resp ipfix.TemplateRecord
+			if err := ipfix.NewRPC(cc.I).Get(ipfix.RPCRequest{ID: e.keys[0].id, IP: append(net.IP{}, e.keys[0].addr...)}, &resp); err != nil {
+				got = -1
+			} else {
+				var ids, lens []uint16
+				for _, f := range resp.FieldSpecifiers {
+					ids, lens = append(ids, f.ElementID), append(lens, f.Length)
+				}
+				got = e.classifySpecs(ids, lens)
+			}
+		case 4:
+			ann(v)
+			venv.AdvanceReal(age)
+			dump()
+			load()
+			data()
+		}
+		c.Nontrivial(mck.HashStr(proto, order, fmt.Sprint(ages[d[1]], v)))
+		c.Outcome(fmt.Sprintf("%s: version read = announced: %v", order, got == v))
+		if got != v {
+			what := map[int]string{-1: "no template (unknown)", -2: "a template that was never announced for this key", -3: "nothing"}[got]
+			if got >= 0 {
+				what = fmt.Sprintf("version %d", got)
+			}
+			c.Violation(proto+":cache:aging:"+strings.ReplaceAll(strings.Split(order, ",")[len(strings.Split(order, ","))-1], " ", ""), fmt.Sprintf("%s with %d s between the steps: the lookup observed %s, announced was version %d", order, ages[d[1]], what, v), desc())
+		}
+		if idx%101 == 0 {
+			c.Sample(desc)
+		}
+	}}
+}
+
 func main() {
-	mck.Main(map[string]func(string) mck.Space{"cache.sched": schedSpace})
+	mck.Main(map[string]func(string) mck.Space{"cache.sched": schedSpace, "cache.aging": agingSpace})
 }
